@@ -4,6 +4,8 @@ set -u
 P=$1; D=$2
 cd /repo && git status --short | grep -q . && { echo "/repo not clean"; exit 2; }
 git -C /repo apply "$(cd /verif && realpath "$D")/patch.diff" || { echo "patch does not apply"; exit 2; }
+cp /verif/evidence/$P.json /tmp/seedtest_$P.evidence 2>/dev/null
 cd /verif && bin/vcheck $P ${3:-quick} > /tmp/seedtest_$P.out 2>&1; rc=$?
 git -C /repo checkout -- .
+cp /tmp/seedtest_$P.evidence /verif/evidence/$P.json 2>/dev/null
 echo "rc=$rc"; grep -E "^VIOLATION|^KNOWN" /tmp/seedtest_$P.out | head -5; grep -E "^  [a-z0-9-]+:" /tmp/seedtest_$P.out | head -4; tail -1 /tmp/seedtest_$P.out
